@@ -643,6 +643,32 @@ func c02GenInput(r *rand.Rand, size int) *c02Input {
 		}
 		g.shape("disabled-dependency")
 	}
+	// a chain with two siblings at its end (r0 ← m0 ← two of the services), each adding its own entries to a list merged by
+	// appending (seed C02-1: a "clone" that shares the backing array of the base's list makes the siblings overwrite
+	// each other's entry, depending on the order they are resolved in)
+	if nsvc >= 2 && g.coin(6) {
+		svcs.Set("r0", M("image", "alpine", "expose", []any{"1000", "1001"}, "cap_drop", []any{"A"}))
+		svcs.Set("m0", M("extends", "r0", "expose", []any{"2000"}, "cap_drop", []any{"B", "C"}))
+		for i := 0; i < 2; i++ {
+			sv := svcs.KV[i].V.(*om)
+			sv.Set("extends", "m0")
+			sv.Set("expose", []any{fmt.Sprintf("30%d0", i)}) // one entry: it fits into the spare capacity left by m0's append
+			sv.Set("cap_drop", []any{"S" + strconv.Itoa(i)})
+		}
+		g.shape("extends-siblings-lists")
+	}
+	// a short-form depends_on list inherited through `extends` and refined per dependency by the extending service (seed
+	// C02-2: one default entry shared by every key of the list makes all dependencies take the values of whichever key
+	// is merged last)
+	if nsvc >= 3 && g.coin(6) {
+		svcs.Set("dbase", M("image", "alpine", "depends_on", []any{names[0], names[1]}))
+		last := svcs.KV[nsvc-1].V.(*om)
+		last.Set("extends", "dbase")
+		last.Set("depends_on", M(
+			names[0], M("condition", "service_healthy"),
+			names[1], M("condition", "service_completed_successfully", "restart", true)))
+		g.shape("depends_on-list-refined")
+	}
 	main.Set("services", svcs)
 	if len(res.Networks) > 0 {
 		m := M()
